@@ -58,12 +58,25 @@ func r191(c *Ctx) {
 			if sc == nil || sc.Name() != "set" || !strings.Contains(core.FuncName(sc), "memoryNamespaceManager") {
 				return
 			}
-			// only publishers of freshly parsed data: the function also calls schema.Parse
+			// only publishers of freshly parsed data: the function (or a helper of the package it
+			// calls) also calls schema.Parse
 			var parses []*ssa.Call
+			parsesIn := func(f *ssa.Function) []*ssa.Call {
+				var out []*ssa.Call
+				core.Instrs(f, func(_ *ssa.BasicBlock, _ int, i2 ssa.Instruction) {
+					if c2, ok := i2.(*ssa.Call); ok {
+						if s2 := c2.Common().StaticCallee(); s2 != nil && s2.Name() == "Parse" && core.FuncPkg(s2).Path() == schemaPkg {
+							out = append(out, c2)
+						}
+					}
+				})
+				return out
+			}
+			parses = parsesIn(fn)
 			core.Instrs(fn, func(_ *ssa.BasicBlock, _ int, i2 ssa.Instruction) {
 				if c2, ok := i2.(*ssa.Call); ok {
-					if s2 := c2.Common().StaticCallee(); s2 != nil && s2.Name() == "Parse" && core.FuncPkg(s2).Path() == schemaPkg {
-						parses = append(parses, c2)
+					if s2 := c2.Common().StaticCallee(); s2 != nil && s2.Blocks != nil && core.FuncPkg(s2) == core.FuncPkg(fn) && s2 != fn {
+						parses = append(parses, parsesIn(s2)...)
 					}
 				}
 			})
@@ -117,19 +130,31 @@ func r191(c *Ctx) {
 		return
 	}
 	restores := false
-	core.Instrs(hc, func(b *ssa.BasicBlock, _ int, ins ssa.Instruction) {
-		// a map update / delete on byPath on the branch where parseFiles returned false
-		isRestore := false
+	// a map update / delete (of the staged entry), directly or in a helper of the package
+	var isRestoreIns func(ins ssa.Instruction, depth int) bool
+	isRestoreIns = func(ins ssa.Instruction, depth int) bool {
 		switch x := ins.(type) {
 		case *ssa.MapUpdate:
-			isRestore = true
-			_ = x
+			return true
 		case *ssa.Call:
 			if bi, ok := x.Call.Value.(*ssa.Builtin); ok && bi.Name() == "delete" {
-				isRestore = true
+				return true
+			}
+			if sc := x.Common().StaticCallee(); sc != nil && sc.Blocks != nil && depth < 1 && core.FuncPkg(sc) == core.FuncPkg(hc) && !core.IsCallTo(x, "parseFiles") {
+				found := false
+				core.Instrs(sc, func(_ *ssa.BasicBlock, _ int, i2 ssa.Instruction) {
+					if isRestoreIns(i2, depth+1) {
+						found = true
+					}
+				})
+				return found
 			}
 		}
-		if !isRestore {
+		return false
+	}
+	core.Instrs(hc, func(b *ssa.BasicBlock, _ int, ins ssa.Instruction) {
+		// on the branch where parseFiles returned false
+		if !isRestoreIns(ins, 0) {
 			return
 		}
 		for _, cd := range core.CondsAt(b) {
@@ -148,13 +173,8 @@ func r191(c *Ctx) {
 	if restores {
 		isRestoreBlock := func(b *ssa.BasicBlock) bool {
 			for _, ins := range b.Instrs {
-				switch x := ins.(type) {
-				case *ssa.MapUpdate:
+				if isRestoreIns(ins, 0) {
 					return true
-				case *ssa.Call:
-					if bi, ok := x.Call.Value.(*ssa.Builtin); ok && bi.Name() == "delete" {
-						return true
-					}
 				}
 			}
 			return false
@@ -276,49 +296,94 @@ func r192(c *Ctx) {
 		r.Undecide("R19.2", "", "anchor NamespaceWatcher.handleChange", "", "not found")
 		return
 	}
-	// every MapUpdate of nw.namespaces: classify by the conditions it is under
+	// no path reaches a write of nw.namespaces[source] on which the new content did not parse
+	// (namespace == nil) while an entry for the source exists (comma-ok of the lookup): the facts
+	// are collected along each path, so the form of the tests (nested ifs, a combined condition
+	// with an early return, ...) does not matter; a fact that is not tested counts as possible
 	n := 0
 	var bad []string
-	core.Instrs(fn, func(b *ssa.BasicBlock, _ int, ins ssa.Instruction) {
-		mu, ok := ins.(*ssa.MapUpdate)
-		if !ok {
+	type fact struct {
+		b           *ssa.BasicBlock
+		nilP, found int // -1 false, +1 true, 0 unknown
+	}
+	edgeFact := func(from *ssa.BasicBlock, k int, f fact) (fact, bool) {
+		if len(from.Instrs) == 0 {
+			return f, true
+		}
+		ifi, ok := from.Instrs[len(from.Instrs)-1].(*ssa.If)
+		if !ok || from.Succs[0] == from.Succs[1] {
+			return f, true
+		}
+		v, truth := ifi.Cond, k == 0
+		for {
+			u, isNot := v.(*ssa.UnOp)
+			if !isNot || u.Op != token.NOT {
+				break
+			}
+			v, truth = u.X, !truth
+		}
+		set := func(cur *int, val bool) bool {
+			w := -1
+			if val {
+				w = 1
+			}
+			if *cur != 0 && *cur != w {
+				return false // contradicts what the path already established
+			}
+			*cur = w
+			return true
+		}
+		if op, x, y, ok := core.BinCmp(v); ok && core.IsNilConst(y) && (op == token.EQL || op == token.NEQ) {
+			if u, ok := x.(*ssa.UnOp); ok {
+				if fa, ok := u.X.(*ssa.FieldAddr); ok && fieldVarOf(fa) != nil && fieldVarOf(fa).Name() == "namespace" {
+					if !set(&f.nilP, (op == token.EQL) == truth) {
+						return f, false
+					}
+				}
+			}
+		}
+		if ex, ok := v.(*ssa.Extract); ok && ex.Index == 1 {
+			if _, isLookup := ex.Tuple.(*ssa.Lookup); isLookup {
+				if !set(&f.found, truth) {
+					return f, false
+				}
+			}
+		}
+		return f, true
+	}
+	seen := map[fact]bool{}
+	var walk func(f fact)
+	walk = func(f fact) {
+		if seen[f] {
 			return
 		}
-		n++
-		parsedNil, lookupFound := 0, 0 // -1 false, +1 true, 0 unknown
-		for _, cd := range core.CondsAt(b) {
-			// n.namespace == nil
-			if op, x, y, ok := core.BinCmp(cd.V); ok && core.IsNilConst(y) {
-				if u, ok := x.(*ssa.UnOp); ok {
-					if fa, ok := u.X.(*ssa.FieldAddr); ok && fieldVarOf(fa) != nil && fieldVarOf(fa).Name() == "namespace" {
-						isNil := (op == token.EQL) == cd.True
-						if isNil {
-							parsedNil = 1
-						} else {
-							parsedNil = -1
-						}
-					}
-				}
-			}
-			// the comma-ok of the map lookup
-			if ex, ok := cd.V.(*ssa.Extract); ok && ex.Index == 1 {
-				if _, isLookup := ex.Tuple.(*ssa.Lookup); isLookup {
-					if cd.True {
-						lookupFound = 1
-					} else {
-						lookupFound = -1
+		seen[f] = true
+		for _, ins := range f.b.Instrs {
+			if mu, ok := ins.(*ssa.MapUpdate); ok {
+				if f.nilP != -1 && f.found != -1 {
+					switch {
+					case f.nilP == 0 && f.found == 0:
+						bad = append(bad, fmt.Sprintf("the entry is written at %s without distinguishing whether the new content parsed", p.Pos(mu.Pos())))
+					default:
+						bad = append(bad, fmt.Sprintf("the entry is overwritten at %s although the new content did not parse and an entry may exist", p.Pos(mu.Pos())))
 					}
 				}
 			}
 		}
-		if parsedNil == 1 && lookupFound != -1 {
-			bad = append(bad, fmt.Sprintf("the entry is overwritten at %s although the new content did not parse and an entry may exist", p.Pos(mu.Pos())))
+		for k, sc := range f.b.Succs {
+			if g, ok := edgeFact(f.b, k, fact{sc, f.nilP, f.found}); ok {
+				walk(g)
+			}
 		}
-		if parsedNil == 0 {
-			bad = append(bad, fmt.Sprintf("the entry is written at %s without distinguishing whether the new content parsed", p.Pos(mu.Pos())))
+	}
+	walk(fact{fn.Blocks[0], 0, 0})
+	core.Instrs(fn, func(_ *ssa.BasicBlock, _ int, ins ssa.Instruction) {
+		if _, ok := ins.(*ssa.MapUpdate); ok {
+			n++
 		}
 	})
-	r.Check(len(bad) == 0 && n >= 2, "R19.2", core.FuncName(fn), "keep-last-good branch shape", p.Pos(fn.Pos()),
+	bad = dedupe(sortStrings(bad))
+	r.Check(len(bad) == 0 && n >= 1, "R19.2", core.FuncName(fn), "keep-last-good branch shape", p.Pos(fn.Pos()),
 		"the file's entry is replaced only when the new content parsed, or when no entry existed yet", strings.Join(bad, "; "))
 }
 
